@@ -162,10 +162,12 @@ def checkAll (C : Codec) (r : Repo) (fuel : Nat) : List CheckErr :=
 
 inductive FileKind where
   | pack | index | snapshot | key | config
+  | multi          -- several sites at once (random multi-site mutants)
 deriving Repr, DecidableEq, Inhabited
 
 inductive Mutation where
   | flip | truncate | delete
+  | none           -- the unmutated repository (control case)
 deriving Repr, DecidableEq, Inhabited
 
 /-- observable verdicts of one mutant -/
@@ -177,12 +179,51 @@ structure Observed where
   dumps : List (Option Bool)
 deriving Repr, Inhabited
 
-/-- must `check --read-data` complain about a single-site mutant of this class?
-    `snapshotsLeft` = some snapshot file other than the mutated one is still listed. -/
+/-- must `check --read-data` complain about a single-site mutant of this class, whatever the
+    snapshots need? (theorems `modified_pack_reported`, `deleted_pack_reported`,
+    `modified_snapshot_reported`, `index_error_reported`; key / config: the repository cannot be
+    opened at all) -/
 def mustReport (k : FileKind) (m : Mutation) : Bool :=
   match k, m with
+  | _, .none => false
+  | .multi, _ => false               -- only rules (1) and (2)
   | .snapshot, .delete => false      -- the snapshot is gone; nothing that is left depends on it
+  | .index, .delete => false         -- reported iff a snapshot needs a blob listed only there: rule (2)
   | _, _ => true
+
+/-- predicted verdict of `check --read-data` (none = depends on what the snapshots need) -/
+def expectCheck (k : FileKind) (m : Mutation) : Option Bool :=
+  match k, m with
+  | _, .none => some false
+  | .multi, _ => none
+  | .snapshot, .delete => some false
+  | .index, .delete => none
+  | _, _ => some true
+
+inductive RExp where
+  | fail | same | failOrSame
+deriving Repr, DecidableEq, Inhabited
+
+/-- predicted outcome of restoring / dumping one snapshot; `self` = the mutated file is that
+    snapshot's own file -/
+def expectRestore (k : FileKind) (m : Mutation) (self : Bool) : RExp :=
+  match k, m with
+  | _, .none => .same
+  | .multi, _ => .failOrSame
+  | .key, _ => .fail                 -- no usable key: the repository cannot be opened
+  | .config, _ => .fail
+  | .index, .flip => .fail           -- LoadIndex fails (hash of the file differs from its name)
+  | .index, .truncate => .fail
+  | .index, .delete => .failOrSame
+  | .snapshot, _ => if self then .fail else .same
+  | .pack, _ => .failOrSame          -- fails iff a needed blob lies in the damaged region
+
+def RExp.admits : RExp → Option Bool → Bool
+  | .fail, none => true
+  | .same, some true => true
+  | .failOrSame, none => true
+  | .failOrSame, some true => true
+  | _, _ => false
 
 /-- C03 as a decidable predicate on the observed behaviour of one mutant:
     (1) no restore / dump "succeeds" with bytes different from the original;
